@@ -31,5 +31,21 @@ def generic_replay(prop, rp):
             print(f"REPRODUCED property={prop} [{r.verdict}]")
             return 1
         return 0
+    if key.startswith("struct:"):
+        # C17 structural oracle: re-parse the text and its full parenthesisation with the current grammar (parse cache bypassed)
+        from . import parenth
+        text = rp["extra"].get("c") or key[7:]
+        t2, _ = parenth.paren(text)
+        a = corpus.parse_stmt(text, use_cache=False)
+        b = corpus.parse_stmt(t2, use_cache=False)
+        print("T        :", text)
+        print("paren(T) :", t2)
+        if a != b:
+            print(a.pretty())
+            print(b.pretty())
+            print(f"REPRODUCED property={prop} {key[:80]} [structure]")
+            return 1
+        print("not reproduced: identical trees")
+        return 0
     print("no generic replay for", key)
     return 2
